@@ -835,3 +835,9 @@ def run(chk):
         c06_mixer = None
     if c06_mixer is not None:
         c06_mixer.run(chk)
+    try:
+        import c06_utils
+    except ImportError:
+        c06_utils = None
+    if c06_utils is not None:
+        c06_utils.run(chk)
